@@ -18,11 +18,20 @@ RULE = ("op histories over {read(n), read(), seek(k), seek(d,1), tell, len} on t
         "generated against the abstract position, over-read stream adds reads past the end (both are compared with the "
         "abstract cursor: theorems cursor_refines_* / cursor_refines_ext_*); handles stream: one handle closed and re-opened "
         "mid-history, one handle read to EOF while the other seeks backwards, handles opened with different atom_indices "
-        "(every handle / re-open epoch is compared with a fresh single-handle run of the model); a case is "
+        "(every handle / re-open epoch is compared with a fresh single-handle run of the model); path-reuse stream (every format): the path the handles are opened on held a different trajectory "
+        "(other frame count, 7 instead of 4 atoms) that was opened and read in the same process (old handle closed and the file rewritten in place / closed and replaced by a new "
+        "inode / still open while the file is replaced by a new inode: overwriting the bytes under an open handle is not done, what "
+        "the old handle or the HDF5 library then sees is not mdtraj's business) before the path was written again; read-ahead stream: xtc and trr "
+        "handles opened with min_chunk_size in {1,2,3,4} and chunk_size_multiplier at its minimum, so that read() loops over "
+        "several chunks on 1..12-frame files (every history contains a read-to-end), compared with ChunkModel.run_case_ch "
+        "(theorems xtc_read_ahead_loop_is_one_read, trr_current_characterised_any_file_any_chunk); a case is "
         "non-trivial when it contains a read and a seek or tell; distinct by hash of (format,T,ops,atom_indices)")
 TRUSTED = ["harness/impl/cursor_impl.py (writes the files, maps frames to identifiers)",
            "generator harness/props/C18.py; comparison is done by vm_compute inside coqc"]
-ASSUMPTIONS = ["frames are identified by xyz[i,0,0]; files have T<100 frames so TRR/XTC read() uses one read-ahead chunk",
+ASSUMPTIONS = ["frames are identified by xyz[i,0,0]; files have T<100 frames: with the default min_chunk_size (100) TRR/XTC read() uses one "
+               "read-ahead chunk; the several-chunk loops are exercised through the min_chunk_size keyword of the file objects and "
+               "are covered for every chunk function and file length by the ChunkProofs theorems; the dynamic chunk formula "
+               "(approx_n_frames from the file size) is modelled as an arbitrary function of the reported counter, >= 1",
                "two handles on one file are modelled as a product state (theorem handles_independent is about that product "
                "only); what two OS-level handles on one file really share (buffers, offsets tables, re-opening) is "
                "exploration by the handles stream of the correspondence, not proof"]
@@ -113,6 +122,26 @@ def gen_history(rng, T, length, fmt, overread):
     return ops
 
 
+def regen_positions(ops, T):
+    """after inserting a read-to-end, drop the operations that are no longer inside the extended range"""
+    pos = [0, 0]
+    out = []
+    for h, op, arg in ops:
+        p = pos[h]
+        if op == "read":
+            pos[h] = min(p + arg, T)
+        elif op == "readall":
+            pos[h] = T
+        elif op == "seek":
+            pos[h] = arg
+        elif op == "seekrel":
+            if not (0 <= p + arg < T):
+                continue
+            pos[h] = p + arg
+        out.append([h, op, arg])
+    return out
+
+
 def exhaustive_histories(T, length, fmt):
     has_len = FORMATS[fmt][1]
     alphabet = [("read", 1), ("read", 2), ("readall", None), ("seek", 0), ("seek", T - 1), ("seekrel", -1),
@@ -191,6 +220,38 @@ def build_cases(ctx):
                                       "stream": "inrange"})
         for T in ([6] if quick else [3, 6, 9]):
             cases += handle_cases(rng, fmt, T, quick)
+    # read-ahead stream: xtc / trr handles opened with min_chunk_size = c (chunk_size_multiplier at its minimum), so that
+    # read() loops over several chunks on small files; compared with ChunkModel.run_case_ch and the abstract cursor
+    for fmt in ("xtc", "trr"):
+        for T in ([5, 6] if quick else [1, 4, 5, 6, 9, 12]):
+            for c in (1, 2, 3, 4):
+                for i in range(5 if quick else 25):
+                    ops = gen_history(rng, T, rng.randint(2, 10), fmt, i % 3 == 2)
+                    if ops and not any(o[1] == "readall" for o in ops):
+                        ops.insert(rng.randrange(len(ops) + 1), [0, "readall", None])
+                        ops = regen_positions(ops, T)
+                    if ops:
+                        cases.append({"fmt": fmt, "T": T, "ops": ops, "handles": 2, "atom_indices": None, "chunk": c,
+                                      "stream": "readahead", "cell": (i % 2 == 0)})
+                cases.append({"fmt": fmt, "T": T, "ops": [[0, "readall", None], [0, "tell", None], [1, "seek", T // 2], [1, "readall", None],
+                                                          [1, "tell", None], [0, "seek", 0], [0, "read", 1], [0, "tell", None]],
+                              "handles": 2, "atom_indices": None, "chunk": c, "stream": "readahead", "cell": True})
+    # path-reuse stream: the path the handles are opened on held a DIFFERENT trajectory before (other frame and atom counts),
+    # which was opened and read in this process (handle closed, or still open, or the file replaced by a new inode)
+    modes = ["closed", "closed-replace", "open-replace"]
+    for fi, fmt in enumerate(FORMATS):
+        seekable = FORMATS[fmt][2]
+        for j in range(3 if quick else 12):
+            T = [5, 6, 9][j % 3]
+            ru = {"T0": [8, 3, 5][(j + fi) % 3], "n_atoms0": 7, "mode": modes[(j + fi) % 3]}
+            if j % 3 == 0 and seekable:
+                ops = [[0, "read", 4], [0, "seek", 1], [0, "read", 2], [0, "seekrel", -2], [0, "read", 1], [0, "tell", None],
+                       [1, "read", 2], [1, "seek", 0], [1, "read", 1], [0, "seek", T - 1], [0, "read", 1], [1, "tell", None]]
+            else:
+                ops = gen_history(rng, T, rng.randint(4, 12), fmt, j % 2 == 1)
+            if ops:
+                cases.append({"fmt": fmt, "T": T, "ops": ops, "handles": 2, "atom_indices": None if j % 4 else [0, 2],
+                              "stream": "pathreuse", "reuse": ru, "cell": True})
     # fixed probes: the historical witnesses always run first
     for fmt in FORMATS:
         if FORMATS[fmt][2]:
@@ -273,22 +334,32 @@ def run_cases(ctx, cases, tie=True):
     jobs = []   # (case index, variant)
     coqcases = []
     rangechk = []
+    cjobs, ccases = [], []          # read-ahead stream: evaluated with ChunkModel.run_case_ch
     for ci, (c, o) in enumerate(zip(cases, outs)):
         for ops, oo in segments(c, o):
             ops_t = clist([coq_op(x) for x in ops])
             exp_t = clist([coq_out(x) for x in oo])
             for v in sorted(set(FORMATS[c["fmt"]][0] + [SPEC])):
-                jobs.append((ci, v))
-                coqcases.append(("(%s, %s, %s)" % (cnat(v), cnat(c["T"]), ops_t), exp_t))
+                if c.get("chunk") is not None:
+                    cjobs.append((ci, v))
+                    ccases.append(("(%s, %s, %s, %s)" % (cnat(v), cnat(c["chunk"]), cnat(c["T"]), ops_t), exp_t))
+                else:
+                    jobs.append((ci, v))
+                    coqcases.append(("(%s, %s, %s)" % (cnat(v), cnat(c["T"]), ops_t), exp_t))
             rangechk.append((ci, "(%s, %s, %s)" % (cnat(SPEC), cnat(c["T"]), ops_t)))
     bad, errs = ctx.coq_mismatches(["MD.Cursor.Model"], ("nat * nat * list (bool * op)", "list out"),
                                    "outs_eqb", "run_case", coqcases)
-    if errs:
-        ctx.break_("correspondence:coqc-evaluation", "\n".join(errs))
+    badc, errsc = ([], [])
+    if ccases:
+        badc, errsc = ctx.coq_mismatches(["MD.Cursor.Model", "MD.Cursor.ChunkModel"], ("nat * nat * nat * list (bool * op)", "list out"),
+                                         "outs_eqb", "run_case_ch", ccases)
+    if errs or errsc:
+        ctx.break_("correspondence:coqc-evaluation", "\n".join(errs + errsc))
         return
-    badset = {jobs[i] for i in bad}
+    badset = {jobs[i] for i in bad} | {cjobs[i] for i in badc}
     # double check of the generator by the Coq definitions: in-range stream in range, every stream in the extended range
     inr = [(ci, t) for ci, t in rangechk if cases[ci]["stream"] == "inrange"]
+    
     bad2, errs2 = ctx.coq_mismatches(["MD.Cursor.Model"], ("nat * nat * list (bool * op)", "bool"), "Bool.eqb",
                                      "case_in_range", [(t, "true") for _ci, t in inr])
     if errs2 or bad2:
